@@ -3,6 +3,7 @@ package authboss
 import (
 	"context"
 	"net/http"
+	"strings"
 
 	"github.com/friendsofgo/errors"
 )
@@ -13,6 +14,40 @@ const (
 	// FollowRedirParam is set to true.
 	FormValueRedirect = "redir"
 )
+
+// IsSameSiteRedirect reports whether a client supplied redirect target (like
+// the FormValueRedirect parameter) is certain to keep a browser on the same
+// site. Anything a browser could resolve to another origin is refused:
+// targets with a scheme (https://host, https:host, javascript:...), scheme
+// relative targets (//host), and targets containing backslashes or control
+// characters, since browsers treat a backslash as a slash and drop tabs and
+// newlines (so /\host and /<tab>/host both mean //host).
+func IsSameSiteRedirect(target string) bool {
+	if len(target) == 0 || target[0] == ' ' || strings.HasPrefix(target, "//") {
+		return false
+	}
+
+	for i := 0; i < len(target); i++ {
+		if c := target[i]; c < 0x20 || c == 0x7f || c == '\\' {
+			return false
+		}
+	}
+
+	// scheme = ALPHA *( ALPHA / DIGIT / "+" / "-" / "." ) ":"
+	for i := 0; i < len(target); i++ {
+		c := target[i]
+		switch {
+		case c >= 'a' && c <= 'z' || c >= 'A' && c <= 'Z':
+		case i > 0 && (c >= '0' && c <= '9' || c == '+' || c == '-' || c == '.'):
+		case i > 0 && c == ':':
+			return false
+		default:
+			return true
+		}
+	}
+
+	return true
+}
 
 // HTTPResponder knows how to respond to an HTTP request
 // Must consider:
